@@ -81,6 +81,14 @@ func TestC16Damage(t *testing.T) {
 			// build up pending transfers at both stages
 			actions["pub1c"] = actions["pub1"]
 			actions["pub2c"] = actions["pub2"]
+			// inbound exactly-once traffic leaves markers behind
+			actions["brokerSend2"] = func(rt *rapid.T) {
+				c := h.Current()
+				if c == nil || !c.State.Accepted || c.Blackholed() {
+					rt.Skip("no accepted connection")
+				}
+				h.brokerSend(2, rapid.IntRange(0, 20).Draw(rt, "len"))
+			}
 			rt.Repeat(actions)
 		})
 		h0.Shutdown(5 * time.Second)
@@ -95,12 +103,17 @@ func TestC16Damage(t *testing.T) {
 			pend0 := h0.pendingAt(msgs0, k)
 			snapshot := h0.Store.SnapshotAt(k)
 			var outKeys []uint
+			var markerKeys []uint
 			for key := range snapshot {
 				if key >= 0x8000 && key <= 0xffff {
 					outKeys = append(outKeys, key)
 				}
+				if key&0x10000 != 0 {
+					markerKeys = append(markerKeys, key)
+				}
 			}
 			sort.Slice(outKeys, func(i, j int) bool { return outKeys[i] < outKeys[j] })
+			sort.Slice(markerKeys, func(i, j int) bool { return markerKeys[i] < markerKeys[j] })
 			// damage set
 			var dmg []damage
 			damaged := map[uint]string{}
@@ -124,6 +137,22 @@ func TestC16Damage(t *testing.T) {
 				}
 				damaged[key] = d.Kind
 				dmg = append(dmg, d)
+			}
+			// inbound markers
+			markerDamaged := false
+			if len(markerKeys) != 0 && rapid.Bool().Draw(rt, "damageMarker") {
+				key := markerKeys[rapid.IntRange(0, len(markerKeys)-1).Draw(rt, "markerTarget")]
+				v := snapshot[key]
+				d := damage{Key: key, Kind: rapid.SampledFrom([]string{"flip", "truncate", "remove"}).Draw(rt, "markerKind")}
+				switch d.Kind {
+				case "flip":
+					d.Pos = rapid.IntRange(0, len(v)-1).Draw(rt, "pos")
+					d.Xor = byte(rapid.IntRange(1, 255).Draw(rt, "xor"))
+				case "truncate":
+					d.Len = rapid.IntRange(0, len(v)-1).Draw(rt, "len")
+				}
+				dmg = append(dmg, d)
+				markerDamaged = true
 			}
 			// the client-identifier record: F17 (open finding) is excluded by construction
 			if rapid.IntRange(0, 9).Draw(rt, "damageClientID") == 0 {
@@ -198,6 +227,9 @@ func TestC16Damage(t *testing.T) {
 			sent := map[uint]bool{}
 			pi := 0
 			for _, p := range packets[1:] {
+				if p.Type == refmqtt.PUBACK || p.Type == refmqtt.PUBREC || p.Type == refmqtt.PUBCOMP {
+					continue // replies to the broker's retransmissions
+				}
 				if p.Type != refmqtt.PUBLISH && p.Type != refmqtt.PUBREL {
 					n.Failf("unexpected %s on the first connection", p)
 				}
@@ -245,9 +277,21 @@ func TestC16Damage(t *testing.T) {
 					}
 				}
 			}
+			// 7. the session still receives: whatever the broker has in flight
+			// (a retransmission of a message whose marker was damaged
+			// included) completes, and a later message arrives
+			var later *refmqtt.OutMsg
+			if cur := n.Current(); cur != nil && cur.State.Accepted {
+				later = n.brokerSend(1, 3)
+			}
 			// 5. drain completes everything resumed
 			n.drain(func() bool {
 				if !n.allPersistedDone() {
+					return false
+				}
+				inflight := 0
+				n.WithLock(func() { inflight = len(n.Broker.Sess.Inflight) })
+				if inflight != 0 {
 					return false
 				}
 				content := n.Store.Content()
@@ -258,8 +302,26 @@ func TestC16Damage(t *testing.T) {
 				}
 				return true
 			})
+			n.readOn()
+			if later != nil {
+				got := false
+				for i := 0; i < n.App.NResults(); i++ {
+					if r := n.App.Result(i); string(r.Topic) == later.Topic {
+						got = true
+					}
+				}
+				if !got {
+					n.Failf("after damage %v a message sent later by the broker (%q) never reached the application", ds, later.Topic)
+				}
+			}
+			if markerDamaged {
+				n.label("inbound-marker-damaged")
+			}
 			noPanics(n)
 			n.Shutdown(5 * time.Second)
+			for k := range n.labels {
+				h0.labels[k] = true
+			}
 		}
 		h0.Script = append(h0.Script, summary...)
 		h0.finish(nontrivial)
